@@ -82,6 +82,8 @@ def pairs_chunk(item):
             if val <= 0 or val < 1e-200:
                 out['tiny'] += 1
                 scale = math.sqrt(orc.diag(te) * orc.diag(tr))
+                # magnitude class for the known-findings key: rounding level (within 100x of the stated bound) or gross
+                v['magnitude'] = 'rounding-level' if abs(val) <= 1e-13 * scale else 'gross'
                 if val < -1e-15 * scale:
                     v['scale'] = scale
                     out['viols'].append(('negative', v))
@@ -252,7 +254,8 @@ def run(ctx):
         for k in tot:
             tot[k] += r[k]
         for tag, v in r['viols']:
-            ctx.violation({'clause': 'pair', 'tag': tag, 'curve': it[0][0], 'pw_exact': v.get('pw_exact') if isinstance(v, dict) else None}, 'bilform {}: {}'.format(tag, v), dict(v, clause='pair') if isinstance(v, dict) else {'clause': 'pair', 'detail': v})
+            ctx.violation({'clause': 'pair', 'tag': tag, 'curve': it[0][0], 'pw_exact': v.get('pw_exact') if isinstance(v, dict) else None,
+                           'magnitude': v.get('magnitude') if isinstance(v, dict) else None}, 'bilform {}: {}'.format(tag, v), dict(v, clause='pair') if isinstance(v, dict) else {'clause': 'pair', 'detail': v})
     resP = pmap(pointwise_task, POINTS[ctx.tier], ctx.jobs, chunksize=1)
     nP = zP = 0
     for key, r in zip(POINTS[ctx.tier], resP):
